@@ -105,7 +105,104 @@ def runUntil (S : VSys W) (endT : Int) : Nat → W → Nat × W
 def runUntilPrecomputed (S : VSys W) (endT : Int) (w : W) : W :=
   S.takeSteps none (Viv.Ev.ceilDiv (endT - S.time w) (S.getStep w)).toNat w
 
+/-- `run_for(d)`: `run_until(time + d)` -/
+def runFor (S : VSys W) (d : Int) (fuel : Nat) (w : W) : Nat × W := S.runUntil (S.time w + d) fuel w
+
+/-- a user loop `while time < stop: step(h)` (or `take_steps(1, h)`) with an explicit step size -/
+def runExplicit (S : VSys W) (h : Int) (stop : Int) : Nat → W → W
+  | 0, w => w
+  | fuel+1, w => if S.time w < stop then runExplicit S h stop fuel (S.istep (some h) w) else w
+
+/-- a user loop `while time < stop: take_steps(k)`: the last chunk may carry the run past the end -/
+def runChunks (S : VSys W) (k : Nat) (stop : Int) : Nat → W → Nat × W
+  | 0, w => (0, w)
+  | fuel+1, w =>
+    if S.time w < stop then let r := runChunks S k stop fuel (S.takeSteps none k w); (r.1 + 1, r.2) else (0, w)
+
+/-- one interactive driving operation with default step sizes: `step()`, `take_steps(n)`, `run_until(t)`, `run_for(d)` -/
+inductive Drive
+  | step | take (n : Nat) | untilT (t : Int) | forD (d : Int)
+  deriving Repr, DecidableEq
+
+/-- a sequence of interactive driving operations, in order -/
+def exec (S : VSys W) (fuel : Nat) : List Drive → W → W
+  | [], w => w
+  | .step :: r, w => exec S fuel r (S.istep none w)
+  | .take n :: r, w => exec S fuel r (S.takeSteps none n w)
+  | .untilT t :: r, w => exec S fuel r (S.runUntil t fuel w).2
+  | .forD d :: r, w => exec S fuel r (S.runFor d fuel w).2
+
+/-- `SimulationContext.run(backup_path, backup_freq)` with a backup due after every step (the second copy of the loop in
+engine.py): the backups written, oldest first, and the final world. `write_backup` is a function of the world. -/
+def runB (S : VSys W) (stop : Int) : Nat → W → List W × W
+  | 0, w => ([], w)
+  | fuel+1, w =>
+    if S.time w < stop then let r := runB S stop fuel (S.step w); (S.step w :: r.1, r.2) else ([], w)
+
+/-- a run cut into segments of `ns` steps; after every segment the world is written (`save`) and read back (`load`) -/
+def segments (S : VSys W) (save load : W → W) : List Nat → W → W
+  | [], w => w
+  | n :: r, w => segments S save load r (load (save (S.iter n w)))
+
 end VSys
+
+/-! ### an executable instance: the global step follows a schedule (what the skeleton driver runs) -/
+
+/-- world of the schedule system: the clock, the global step, and what `step_forward` will recompute -/
+structure SW where
+  clock  : Int
+  step   : Int
+  stop   : Int
+  k      : Nat := 0                    -- engine steps taken so far
+  sched  : List (Option Int) := []     -- sched[k]: the step recomputed at the end of engine step k (none: not recomputed)
+  recomp : Bool := false               -- the last engine step recomputed the global step
+  log    : List (String × Int × Int) := []   -- (event, clock, event.step_size), oldest first
+deriving Repr, DecidableEq
+
+/-- `SimulationContext.step`: one event per state of the main loop (Gen.phases) at the current clock with the current
+step, then `step_forward`: the clock advances by the step; per-simulant clocks recompute the step -/
+def SW.engineStep (w : SW) : SW :=
+  let evs := (Viv.Ctx.phaseStates "main_loop").map (fun e => (e, w.clock, w.step))
+  let r : Option Int := (w.sched[w.k]?).join
+  { w with clock := w.clock + w.step, step := r.getD w.step, recomp := r.isSome, k := w.k + 1, log := w.log ++ evs }
+
+/-- `initialize_simulants`: `step_backward`, create the initial population, `step_forward` – the clock is back where it
+was, and per-simulant clocks (with somebody in the table) have recomputed the global step for the first time -/
+def SW.initSims (r : Option Int) (w : SW) : SW := { w with step := r.getD w.step, recomp := r.isSome }
+
+/-- `finalize`: the end event at the final clock -/
+def SW.finalize (w : SW) : SW := { w with log := w.log ++ [("simulation_end", w.clock, w.step)] }
+
+def schedSys : VSys SW :=
+  { step := SW.engineStep, time := (·.clock), getStep := (·.step), setStep := fun h w => { w with step := h },
+    recomputed := (·.recomp) }
+
+/-! ### several simulations in one process -/
+
+/-- a process: how many contexts it has created (`len(_created_simulation_contexts)`) and its live simulations -/
+structure Proc (σ : Type) where
+  created : Nat := 0
+  sims    : List (World σ) := []
+
+/-- `SimulationContext(...)` without a name: the name is `simulation_<count + 1>` -/
+def Proc.create {σ : Type} (p : Proc σ) (s : Sim) (u : σ) : Proc σ :=
+  { created := p.created + 1, sims := p.sims ++ [⟨s, u, s!"simulation_{p.created + 1}"⟩] }
+
+/-- a step that leaves the world alone when the engine refuses it (the Python exception propagates to the caller) -/
+def stepT {σ : Type} (h : Handler σ) (w : World σ) : World σ :=
+  match stepW h w with
+  | .ok w' => w'
+  | .error _ => w
+
+def iterT {σ : Type} (h : Handler σ) : Nat → World σ → World σ
+  | 0, w => w
+  | n+1, w => iterT h n (stepT h w)
+
+/-- the `i`-th simulation of the process takes a step -/
+def Proc.stepAt {σ : Type} (h : Handler σ) (p : Proc σ) (i : Nat) : Proc σ := { p with sims := p.sims.modify i (stepT h) }
+
+/-- an interleaving: which simulation steps next -/
+def Proc.schedule {σ : Type} (h : Handler σ) (p : Proc σ) (is : List Nat) : Proc σ := is.foldl (Proc.stepAt h) p
 
 /-- a table as an association list of columns; `setCol` overwrites or appends -/
 def setCol {α : Type} (t : List (String × α)) (c : String) (v : α) : List (String × α) :=
